@@ -453,15 +453,22 @@ def candidates(rng, doc):
             if not any(x.startswith("#") or x.startswith("~") for x in words) and len(words) % d == 0 and \
                     (HYPHEN_REWRAP or all(hyphen_neutral(x) for x in words)):
                 r = rng.random()
-                if r < 0.25:
+                n = d
+                if r < 0.2:
                     widths = [1] * d
-                elif r < 0.4:
+                elif r < 0.3:
                     widths = [d]
-                elif r < 0.6:
+                elif r < 0.45:
                     widths = [rng.randint(1, d)] * d
-                else:
+                elif r < 0.7:
                     widths = [rng.randint(1, max(1, d // 2 + 1)) for _ in range(rng.randint(0, d))]
-                out.append(["rewrap", first, last_, d, widths])
+                else:
+                    # lines that cross depth steps: the group is several steps (or the whole body), cut at one uniform width
+                    # (a width above the number of curves that divides the group gives equally long lines throughout)
+                    n = rng.choice([2 * d, 3 * d, len(words), len(words)])
+                    w = rng.choice([n, 2 * d, 3 * d, d + 1, rng.randint(1, max(n, 1))])
+                    widths = [w] * (n // max(w, 1) + 1)
+                out.append(["rewrap", first, last_, n, widths])
         if rows and len(quote_free) == len(rows) and not (st["wrapped"] == "YES") and rng.random() < 0.5:
             to = rng.choice([x for x in DLMS if x != dlm])
             cells = [c for _, l in rows for c in cells_of(dlm, split_eol(l)[0])]
